@@ -337,6 +337,8 @@ def parse_obs(lines):
             d[k] = v.strip()
         else:
             toks = l.split()
+            if not toks:
+                continue                  # an empty line (the process died right after a newline)
             if toks[0] in ('update',):
                 d['update'] = ' '.join(toks[1:])
             elif toks[0] in ('image',):
